@@ -805,9 +805,19 @@ def _run_plan(plan, pristine_fp, yatiml_dir, yaml_dir, mount, sched, profile=Fal
     mutated = []
     repeats = []
 
+    # interpreter-wide limits that decide what a plain-PyYAML (or yatiml) call in ANOTHER
+    # thread does while this one is pre-empted: a call that changes them for its own
+    # duration changes the behaviour of every concurrent call
+    limits0 = (sys.getrecursionlimit(), sys.get_int_max_str_digits())
+    transient_limits = []
+
     def on_switch(sc, cur, nxt, loc):
         if not transient and cheap() != cheap0:
             transient.append({'step': sc.step, 'loc': loc, 'from': cur.id, 'to': nxt.id})
+        if not transient_limits and (sys.getrecursionlimit(), sys.get_int_max_str_digits()) != limits0:
+            transient_limits.append({'step': sc.step, 'loc': loc, 'from': cur.id, 'to': nxt.id,
+                                     'limits': [sys.getrecursionlimit(), sys.get_int_max_str_digits()],
+                                     'at_start': list(limits0)})
 
     sc = sched.Scheduler(plan.get('tape'), yatiml_dir, yaml_dir, U.GEN_PREFIX,
                          scope=knobs.get('scope', 'core'),
@@ -893,6 +903,13 @@ def _run_plan(plan, pristine_fp, yatiml_dir, yaml_dir, mount, sched, profile=Fal
             'oracle': 'PyYAML registries untouched (observed at a context switch)',
             'signature': {'engine': 'world', 'oracle': 'pyyaml-registries-transient'},
             'detail': transient[0]})
+
+    if transient_limits:
+        violations.append({
+            'oracle': 'interpreter-wide limits (recursion, int digits) as other threads see them while a '
+                      'call is in flight (observed at a context switch)',
+            'signature': {'engine': 'world', 'oracle': 'process-limits-transient'},
+            'detail': transient_limits[0]})
 
     # ---- quiescent oracles
     fp = deep_fingerprint()
